@@ -164,3 +164,41 @@ func VerifC10Esccli() {
 
 // VerifC10CommandLine2: same check, registered a second time with other bounds (one longer argument).
 func VerifC10CommandLine2() { VerifC10CommandLine() }
+
+// unicodeArgs: non-ASCII texts an argument may hold (the engine does not decode symbolic
+// multi-byte characters, so these are concrete): accents, CJK, an emoji, and every Unicode space
+// and line/paragraph separator - characters a parser might be tempted to treat as blanks.
+var unicodeArgs = []string{
+	"\u00e9", "\u65e5\u672c", "\U0001F600", "10\u00a0km", "\u00a0", "\u65e5\u672c\u3000\u8a9e", "a\u2003b", "\u2028x", "x\u2029", "\u0085", "a\u200bb",
+	"\u3000", "\u1680", "\u202f", "\ufeff", "\u00a0x", "x\u3000", "\u00ad",
+}
+
+// VerifC10Unicode: argv = cmd + one non-ASCII text (optionally with one arbitrary ASCII byte before
+// or after it), or cmd + two of the texts.
+func VerifC10Unicode() {
+	var args []string
+	if rt.Choice("two", 2) == 1 {
+		// two arguments, both plain texts of the pool
+		args = []string{unicodeArgs[rt.Choice("text", rt.Param("pool"))], unicodeArgs[rt.Choice("text", rt.Param("pool"))]}
+	} else {
+		u := unicodeArgs[rt.Choice("text", rt.Param("pool"))]
+		switch rt.Choice("side", 3) {
+		case 1:
+			c := rt.String("pre", 1)
+			rt.Assume(c[0] < 0x80)
+			u = c + u
+		case 2:
+			c := rt.String("post", 1)
+			rt.Assume(c[0] < 0x80)
+			u = u + c
+		}
+		args = []string{u}
+	}
+	Known(args)
+	fork := newScope()
+	argv := append([]string{"cmd"}, args...)
+	escape.CommandLine(argv)
+	line := strings.Join(argv, " ")
+	rt.Reach("unicode-escaped")
+	CheckLine(line, args, fork.Process)
+}
